@@ -251,8 +251,8 @@ def rand_cfg(r, inp):
         inp["bothmm"] = True
     if r.random() < 0.3:
         inp["oplimit"] = r.choice([1, 3, 5, 10, 20, 50, 100, 101, 110, 205, 1000, 30000])
-    if inp["mode"] == 1 and re.search(rb"[0-9)][ ]*[aAcC][ ]*[0-9(]", inp["src"] + b" ".join(inp["hist"])):
-        inp["mode"] = 0      # WoD / Double Cross pools explode forever in max mode (recorded known finding): keep them out of the bulk stream
+    if inp["mode"] == 1 and not inp["oplimit"] and re.search(rb"[0-9)][ ]*[aAcC][ ]*[0-9(]", inp["src"] + b" ".join(inp["hist"])):
+        inp["mode"] = 0      # without a budget WoD / Double Cross pools explode forever in max mode: keep them out of the bulk stream
     inp["hi"], inp["lo"] = r.getrandbits(64), r.getrandbits(64)
     inp["st"] = r.random() < 0.8
     return inp
@@ -289,22 +289,35 @@ def make_inputs(rnd, n, corpus):
             inp["oplimit"] = rnd.choice([150, 1000, 5000, 30000])   # unbounded recursion without a budget kills the process
         inputs.append(inp)
         kinds.append(kind)
-    for src in EDGE + EDGE_BUDGET:
+    for src in EDGE + EDGE_BUDGET + REPAIRED:
         for cfg in ({}, {"oplimit": 1000}, {"mode": -1, "div0": True}):
             if (src in EDGE_BUDGET or b"&x = x" in k2cases.mk_input(src)["src"]) and not cfg.get("oplimit"):
                 continue    # unbounded recursion / dice counts without a budget kill or stall the process
             inp = k2cases.mk_input(src, st=True, hi=rnd.getrandbits(64), lo=rnd.getrandbits(64), **cfg)
             inputs.append(inp)
             kinds.append("edge corpus")
+    # exploding pools are charged round by round against OpCountLimit (also in max mode, where they never stop by themselves)
+    for src in ["5a10", "3a8", "2c8", "10a6m10", "1a2m100", "3c5m10", "20000a2", "x = 3a8 + 2c8; x", "func g() { 4a8 }; g() + 1c9"]:
+        for cfg in ({"mode": 1, "oplimit": 5}, {"mode": 1, "oplimit": 50}, {"mode": 1, "oplimit": 1000}, {"oplimit": 3}, {"oplimit": 7},
+                    {"oplimit": 120}, {"oplimit": 30000}, {"mode": -1, "oplimit": 10}, {}):
+            if src == "20000a2" and (not cfg.get("oplimit") or cfg["oplimit"] > 1000):     # model cost only
+                continue
+            inputs.append(k2cases.mk_input(src, hi=rnd.getrandbits(64), lo=rnd.getrandbits(64), **cfg))
+            kinds.append("exploding pools")
     return inputs, kinds
 
 
-# inputs on which the real code does not come back / dies (each replayed in its own process)
+# recursion depth is bounded only by the op budget: with OpCountLimit == 0 (no budget configured) these overflow the goroutine
+# stack (fatal error) — outside the budgeted properties, recorded here; each is replayed in its own process
 DEFECT_REPLAYS = [
-    ("hang: Array.kh count is not budgeted", "[1,2].kh(9223372036854775807)"),
-    ("hang: __proto__ cycle", "x = {}; x.__proto__ = x; x.y"),
-    ("fatal: == on two cyclic arrays overflows the goroutine stack", "x = [0]; x[0] = x; y = [0]; y[0] = y; x == y"),
+    ("no budget: self-referential computed value recurses until the stack is exhausted", "&x = x + 1; x"),
+    ("no budget: unbounded function recursion", "func g(u) { return g(u + 1) }; g(0)"),
 ]
+# repaired meanwhile (kept in the compared corpus): kh/kl count clamp, __proto__ depth 64, == on cyclic containers, st.mod "-" on a non-number
+REPAIRED = ["[1,2].kh(9223372036854775807)", "[5,1,2].kl(9223372036854775807)", "x = {}; x.__proto__ = x; x.y", "x = {}; y = {'__proto__': x}; x.__proto__ = y; [x.q, y.q]",
+            "x = [0]; x[0] = x; y = [0]; y[0] = y; x == y", "x = {'a':1}; x.a = x; y = {'a':1}; y.a = y; [x == y, x == x, x != y]",
+            "x = [0, 1]; x[0] = x; y = [0, 2]; y[0] = y; x == y", "x = [0]; y = [0]; x[0] = y; y[0] = x; [x == y, x == [x], [x] == [y]]",
+            "x = {'p': 1}; y = {'__proto__': x}; z = {'__proto__': y}; [z.p, z.len, z.q, z.keys]"]
 
 
 def opcode_cov(rows, statuses):
